@@ -379,6 +379,58 @@ class Run:
                           "tlc_states": r.distinct, "tlc_wall_s": round(r.wall, 2), "wall_s": round(time.time() - t0, 2)})
         return r, path, n, rejected
 
+    def rec_leg(self, name, emit_args, spec="TV_Asm", cfg="TV_Asm.cfg", verdict=None, workers=8,
+                timeout=3000, heap="12g", path=None, min_records=1):
+        """TV leg over independent scenario records (assembler, linker, formats, parser): each
+        record is a behaviour call -> ret; on ret the specification's `why` holds the names of the
+        failed checks.  Names in `verdict` decide the property, the others are drift."""
+        t0 = time.time()
+        if path is None:
+            path, n = self.emit(name, ["emit"] + emit_args)
+        else:
+            n = sum(1 for _ in open(path, "rb"))
+        if n < min_records:
+            raise ToolError("leg %s: harness produced %d records" % (name, n))
+        r = self.tlc(name, spec, cfg, env={"TRACE": path}, workers=workers, timeout=timeout, heap=heap, depth_first=False)
+        rejected = {}
+        for v in r.violations:
+            last = v["states"][-1] if v["states"] else {}
+            if "l" not in last:
+                continue
+            why = set(re.findall(r'"([^"]+)"', last.get("why", "")))
+            rejected.setdefault(int(last["l"]), set()).update(why)
+        recs = read_records(path, sorted(rejected)[:60] + [1, max(1, n // 2), n])
+        nviol = 0
+        for ln in sorted(rejected):
+            why = rejected[ln]
+            hard = why if verdict is None else (why & set(verdict))
+            soft = why - hard
+            rec = recs.get(ln)
+            if hard:
+                nviol += 1
+                if nviol <= 20:
+                    self.violations.append({
+                        "leg": name,
+                        "what": "record %d (%s run %s) of `lc3v %s` rejected by %s: %s" % (
+                            ln, (rec or {}).get("ev"), (rec or {}).get("run"), " ".join(emit_args), spec, ",".join(sorted(hard))),
+                        "replay": {"kind": "rec", "leg": name, "emit": emit_args, "spec": spec, "cfg": cfg, "line": ln,
+                                   "why": sorted(why), "hard": sorted(hard), "verdict": sorted(verdict) if verdict else None,
+                                   "record": _shorten(rec, 6000) if rec else None, "seed": self.seed, "tier": self.tier}})
+            elif soft:
+                self.drift.append("leg %s record %d: specification and implementation differ on %s (not what this "
+                                  "property constrains)" % (name, ln, ",".join(sorted(soft))))
+        if r.distinct < 2 * n and not rejected:
+            raise ToolError("leg %s: TLC evaluated %d of %d records" % (name, r.distinct // 2, n))
+        self.traces += n - nviol
+        self.evaluations += n
+        for k in (1, max(1, n // 2), n):
+            if k in recs and len(self.samples) < 12:
+                self.samples.append({"leg": name, "record": k, "event": _shorten(recs[k], 300)})
+        self.legs.append({"leg": name, "kind": "TV-records", "spec": spec, "records": n, "rejected": len(rejected),
+                          "verdict_violations": nviol, "tlc_states": r.distinct, "tlc_wall_s": round(r.wall, 2),
+                          "wall_s": round(time.time() - t0, 2)})
+        return r, path, n, rejected
+
     def mc_leg(self, name, spec, cfg, env=None, workers=8, timeout=1800, **kw):
         """MC leg: model-check the specification itself."""
         t0 = time.time()
@@ -663,6 +715,146 @@ def c35(run):
         level_note="thorough tier is exhaustive; quick is boundary + random")
 
 
+ASM_CONF = ["conf-accept", "conf-err", "conf-blocks", "conf-sym"]
+
+
+@check("C01")
+def c01(run):
+    run.rec_leg("asm", ["asm", "faults=25"], verdict=["panic", "image", "labels", "extflag", "unknown-event"])
+    return run.finish(
+        rule="generated programs (every opcode and alias, operands at and inside field limits, label operands forward and "
+             "backward incl. offsets exactly at the 9- and 11-bit limits, .fill/.stringz/.blkw, 1-4 blocks placed from x0000 "
+             "up to ending exactly at xFE00, touching blocks, blocks out of source order, externals), rendered with random "
+             "surface syntax, assembled by the real parse_ast + assemble / assemble_debug, plus the OS source itself; for "
+             "every accepted well-formed program TLC computes ImageSpec (address = origin + sizes of the statements before, "
+             "words = Isa!Encode after alias expansion, label operand = label address - (address + 1)) and LabelSpec from "
+             "the parsed statements and requires the object's image (set of address/word pairs, so nothing else is "
+             "defined) and the label table to be equal",
+        level_note="the statement list is the real parser's output (C03 decides the parser); block partition and the exact "
+                   "object record are compared with the operational transcription Asm!Assemble as drift only")
+
+
+@check("C02")
+def c02(run):
+    run.rec_leg("asm", ["asm", "faults=70"], verdict=["panic", "accept", "kind", "unknown-event"])
+    return run.finish(
+        rule="generated programs with zero to three injected faults (missing/extra/nested .orig/.end, duplicate labels in "
+             "another case, undefined labels, offsets one past the field limit, blocks ending at xFE00+1 / x10000 / x10001, "
+             "overlapping and touching blocks, equal starts, externals in PC-relative operands, statements and labels "
+             "outside blocks, .external clashing with a definition, .fill of an external outside a block); TLC evaluates "
+             "WellFormed (the five conditions of the statement, each a separate predicate) on the parsed statements and "
+             "requires acceptance iff WellFormed, and the error kind to be one of ViolatedKinds; a panic is a Panic record",
+        level_note="which of several violated conditions is reported is left open (the property says: one of them)")
+
+
+@check("C23")
+def c23(run):
+    run.rec_leg("asm", ["asm", "faults=10"], verdict=["panic", "labels", "extflag", "labelquery", "unknown-event"])
+    return run.finish(
+        rule="for every generated program whose pass 1 succeeds: every label of the program (definitions, operands, "
+             "externals, labels on .end lines, repeated labels on one address) queried in four spellings plus near-miss and "
+             "absent names through lookup_label / get_label_source, every recorded address and its neighbours through "
+             "rev_lookup_label, and label_iter as a set; TLC computes the expected answers from the parsed statements "
+             "(address of the statement the label precedes, 0 for externals; span = first occurrence with the queried "
+             "length, whose source text upper-cased is the key; reverse lookup is a membership test)",
+        level_note="reverse lookup and listing iterate a hash map: compared as sets / by membership")
+
+
+@check("C24")
+def c24(run):
+    run.rec_leg("asm", ["asm", "faults=10"], verdict=["panic", "lines", "linequery", "lines-not-injective", "unknown-event"])
+    return run.finish(
+        rule="generated programs assembled with debug symbols (statements on varied lines, label-only lines, comments, "
+             "blank lines, CRLF, .blkw/.stringz of varied sizes, .external inside and outside blocks): line_iter must equal "
+             "LineSpec = {(line of the statement, its first address) : statement occupies memory}; lookup_line for every "
+             "line up to count+2 and rev_lookup_line for every mapped address, its neighbours and random addresses must "
+             "agree with it; LineSpec itself must be injective both ways",
+        level_note="line numbers are computed by TLC from the source bytes (number of LF before the statement)")
+
+
+LINK_CONF = ["link-conf-accept", "link-conf-kind", "link-conf-obj", "load-conf"]
+
+
+@check("C20")
+def c20(run):
+    run.rec_leg("link", ["link"], verdict=["panic", "link-accept", "link-image", "link-labels", "link-rel", "order-success", "order-core",
+                                           "order-labels", "set-accept", "set-image", "set-rel", "set-labels", "unknown-event"])
+    return run.finish(
+        rule="sets of 2-4 generated files (shared labels defined in one file and declared external in others, labels "
+             "defined twice at different addresses, the same label at one address through a label on an .end line, externals "
+             "never defined, blocks disjoint / touching / overlapping by one word / with equal starts), each assembled by the "
+             "real assembler and linked by the real ObjectFile::link in every order and bracketing (all 12 for three files, a "
+             "sample of 14 for four); every link step is validated on its real operands: success iff blocks disjoint and no "
+             "label defined at two addresses, image = union with every .fill of a label resolved by this step replaced by its "
+             "address, label table and pending relocations as the statement says; all full links of a set must agree on "
+             "success and on (image, labels with flags, pending relocations); and the set as a whole is compared with the "
+             "declarative result computed from the files' parsed statements",
+        level_note="error kinds of failing links are compared with Linker!Link as drift only (the property does not name them)")
+
+
+@check("C21")
+def c21(run):
+    run.rec_leg("asm", ["asm", "faults=10"], verdict=["panic", "rel", "symkept", "objsym", "unknown-event"])
+    run.rec_leg("link", ["link"], verdict=["panic", "unresolved-load", "resolved-word", "symkept", "set-image", "set-rel", "unknown-event"])
+    return run.finish(
+        rule="generated programs with .external declared before, inside and after the blocks that use it, assembled with and "
+             "without debug symbols: the relocation entries must be exactly the .fill statements of external labels "
+             "(computed by TLC from the parsed statements) and the symbol table must survive assembly; every file with such a "
+             "word must fail to load with UnresolvedExternal; after linking (all orders) every such word whose label some "
+             "file defines holds that address in the linked image and in simulator memory after a successful load, and a "
+             "linked object with a still-undefined reference must fail to load",
+        level_note="memory is probed at every relocation address of every file after load_obj_file into a fresh simulator")
+
+
+@check("C22")
+def c22(run):
+    run.rec_leg("link", ["link", "alldbg=1"], verdict=["panic", "dbg-lines", "dbg-labels", "unknown-event"])
+    return run.finish(
+        rule="pairs and triples (some quadruples) of generated files assembled with debug symbols and linked in every order "
+             "and bracketing; for every link step the harness records, for every mapped address of the operands and of the "
+             "result, rev_lookup_line and the text of source_info().read_line of that line, and get_label_source of every "
+             "label; TLC requires each address of the result to read the same text as in the operand it came from (and no "
+             "address to be lost), and every label's span in the combined source to spell the label (ignoring case)",
+        level_note="checked inductively per link step, which gives the property for every linked combination")
+
+
+@check("C17")
+def c17(run):
+    run.rec_leg("link", ["link"], verdict=["panic", "rt-bin", "unknown-event"])
+    run.rec_leg("asm_rt", ["rt", "fmt=bin"], verdict=["panic", "rt-bin", "unknown-event"])
+    return run.finish(
+        rule="every object of the link sets (assembled files with and without debug symbols, with externals and relocation "
+             "entries, .blkw regions, several blocks; every intermediate and final link result) and of generated single "
+             "programs with exotic source text is written by BinaryFormat::serialize and read back; TLC requires the reader to "
+             "accept, the crate's own == to hold and the projection of the result (blocks, labels with flags and source "
+             "offsets, relocation entries, line table, source bytes) to equal the projection of the original",
+        level_note="the byte grammar itself is not transcribed (DESIGN.md section 8)")
+
+
+@check("C18")
+def c18(run):
+    run.rec_leg("link", ["link"], verdict=["panic", "rt-txt", "unknown-event"])
+    run.rec_leg("asm_rt", ["rt", "fmt=txt"], verdict=["panic", "rt-txt", "unknown-event"])
+    return run.finish(
+        rule="as C17 through TextFormat; the single-program leg uses sources with quotes, backslashes, tabs, CRLF, control "
+             "and non-ASCII characters, ' | ' inside comments and strings, '=' and '#' at line starts, empty and "
+             "whitespace-only lines",
+        level_note="the text grammar itself is not transcribed (DESIGN.md section 8)")
+
+
+@check("C26")
+def c26(run):
+    run.rec_leg("asm", ["asm", "faults=85"], verdict=["panic", "errspan", "errlabel", "unknown-event"])
+    run.rec_leg("link", ["link", "conflicts=1"], verdict=["panic", "link-errspan", "unknown-event"])
+    return run.finish(
+        rule="every failing assembly of the fault-injected programs of C02 and every failing link of the sets of C20: span(), "
+             "iter() and first() are queried under catch_unwind; for assembler errors the list must be non-empty, first() must "
+             "be its first element, every span must lie inside the source, and for label errors every span's text upper-cased "
+             "must be one of the offending labels TLC computes declaratively (labels outside blocks, clashing keys, undefined "
+             "/ external / too-far operands)",
+        level_note="link errors about blocks carry an empty span list (nothing to point into); only panics are judged there")
+
+
 CONF = ["pc", "psr", "regs", "ssp", "mcr", "prefetch", "fno", "frames", "icount", "obs", "kbd", "kbdie",
         "disp", "timers", "mem", "alloca", "res", "draw", "panic", "unknown-event", "pause", "nsteps"]
 
@@ -863,7 +1055,25 @@ def replay_trace(run, rp, path):
     return 0
 
 
-REPLAYERS = {"trace": replay_trace}
+def replay_rec(run, rp, path):
+    """1. the recorded record against the specification; 2. the same scenario family on the current tree."""
+    if rp.get("record") is not None and "truncated" not in rp["record"]:
+        p = os.path.join(run.work, "recorded.ndjson")
+        with open(p, "w") as f:
+            f.write(json.dumps(rp["record"]) + "\n")
+        r = run_tlc(rp["spec"], rp["cfg"], os.path.join(run.work, "tlc_recorded"), env={"TRACE": p}, workers=1, depth_first=False)
+        log("recorded record %s by the specification" % ("REJECTED" if r.violations else "accepted"))
+    r, p2, n, rejected = run.rec_leg(rp["leg"], rp["emit"], spec=rp["spec"], cfg=rp["cfg"], verdict=rp.get("verdict"))
+    if run.violations:
+        for v in run.violations[:5]:
+            log("  still rejected: %s" % v["what"])
+        log("VIOLATION property=%s replay=%s" % (run.pid, path))
+        return 1
+    log("current tree: all %d records accepted (recorded record was line %s: %s)" % (n, rp.get("line"), rp.get("why")))
+    return 0
+
+
+REPLAYERS = {"trace": replay_trace, "rec": replay_rec}
 
 
 def main(argv):
